@@ -1,4 +1,5 @@
 import JugModel.Model.Graph
+import JugModel.Model.Target
 import JugModel.Driver.Util
 open Lean
 namespace Jug.Drv
@@ -11,6 +12,11 @@ def stOf : String → Status
 
 def handleGraph (op : String) (j : Json) : Option Json :=
   match op with
+  | "match" =>
+    -- which of the task names a plain-name target names
+    let target := (getStr j "target").toList
+    let names := (getArr j "names").map (fun x => x.getStr?.toOption.getD "")
+    some <| Json.mkObj [("hits", jList Json.bool (names.toList.map (fun nm => Jug.Target.matchesName target nm.toList)))]
   | "graph" =>
     let n := getNat j "n"
     let depsA := (getArr j "deps").map (fun d => match d with
